@@ -24,7 +24,7 @@ func (muxHist) Props() []string { return []string{"C04", "C05", "C17"} }
 
 func (muxHist) Runs(tier string) int64 {
 	if tier == "thorough" {
-		return 400000
+		return 3000000
 	}
 	return 6000
 }
